@@ -90,6 +90,9 @@ class FieldArrayModel(FieldCompositeModel):
         
         # Set the size field for arrays that don't
         # have a random size
+        # The length the list has when the call starts: what a call that 
+        # fails before this list is solved leaves it with
+        self.pre_call_len = len(self.field_l)
         if self.is_rand_sz:
             # (the size is random exactly when the list is: not inside a
             # sub-object that is not random in this call)
@@ -113,6 +116,14 @@ class FieldArrayModel(FieldCompositeModel):
             sz = int(self.size.get_val())
             if sz < len(self.field_l):
                 del self.field_l[sz:]
+        
+    def restore_pre_call_len(self):
+        """Drops the elements a random-size scalar list was extended by 
+        for a call that did not get to solve it"""
+        n = getattr(self, "pre_call_len", None)
+        if self.is_rand_sz and self.is_scalar and n is not None and n < len(self.field_l):
+            del self.field_l[n:]
+            self._set_size(n)
         
     def add_field(self) -> FieldScalarModel:
         fid = len(self.field_l)
